@@ -103,7 +103,8 @@ Definition schema_table : list (string * schema) :=
    ("WalletDataV3", s_WalletDataV3);
    ("WalletDataV4", s_WalletDataV4);
    ("WalletDataHighloadV2", s_WalletDataHighloadV2);
-   ("WalletDataV5R1", s_WalletDataV5R1)].
+   ("WalletDataV5R1", s_WalletDataV5R1);
+   ("AddressWithWorkchain", s_AddressWithWorkchain)].
 
 Fixpoint lookup (nm : string) (l : list (string * schema)) : option schema :=
   match l with
